@@ -679,6 +679,18 @@ class loop_if(x12_node):
                         yield c
 
 
+class _undefined_element(object):
+    """
+    Stands for a data element position beyond the segment definition, so that
+    a 'too many elements' error is located at that position
+    """
+    def __init__(self, seg_node, seq):
+        self.parent = seg_node
+        self.seq = seq
+        self.data_ele = None
+        self.name = 'Undefined element %02i' % (seq)
+
+
 class segment_if(x12_node):
     """
     Segment Interface
@@ -970,6 +982,8 @@ class segment_if(x12_node):
             #self.logger.error(err_str)
             ref_des = '%02i' % (child_count + 1)
             err_value = seg_data.get_value(ref_des)
+            # locate the error at the first element beyond the definition
+            errh.add_ele(_undefined_element(self, child_count + 1))
             errh.ele_error('3', err_str, err_value, ref_des)
             valid = False
 
